@@ -32,6 +32,26 @@ fn std_hash(a: &FilterAst) -> u64 {
 /// Parses and serializes one text; `Err` carries the answer to give instead.
 fn one(info: &SchemeInfo, text: &[u8]) -> Result<One, Sexp> {
     let text = String::from_utf8(text.to_vec()).map_err(|_| Sexp::tagged("bad-utf8", vec![]))?;
+    // The AST depends on the text alone, not on what this thread parsed before: before the real parse, every other
+    // text is preceded by parses of its own prefixes cut inside tokens (unterminated literals, open brackets,
+    // operators without operand ...); whatever they answer, they must leave nothing behind.
+    static TURN: std::sync::atomic::AtomicUsize = std::sync::atomic::AtomicUsize::new(0);
+    if TURN.fetch_add(1, std::sync::atomic::Ordering::Relaxed) % 2 == 0 {
+        let n = text.len();
+        for k in [n / 3, n / 2, 2 * n / 3, n.saturating_sub(1), n.saturating_sub(2)] {
+            let mut k = k;
+            while k > 0 && !text.is_char_boundary(k) {
+                k -= 1;
+            }
+            let _ = info.scheme.parse(&text[..k]);
+        }
+        for (i, c) in text.char_indices() {
+            // a prefix that ends right after the first character of a quoted literal: an unterminated literal
+            if c == '"' && i + 2 <= n && text.is_char_boundary(i + 2) {
+                let _ = info.scheme.parse(&text[..i + 2]);
+            }
+        }
+    }
     let ast = info.scheme.parse(&text).map_err(|_| Sexp::tagged("err", vec![]))?;
     let sexp = enc_lexpr(info, ast.expression());
     let json = serde_json::to_string(&ast).map_err(|_| Sexp::tagged("serialize-failed", vec![]))?;
